@@ -224,3 +224,4 @@ def run(fb, rep, tier, cfg):
     r12h.r12h(fb, rep)
     r12h.r12i(fb, rep)
     r12h.r12j(fb, rep)
+    r12h.r12k(fb, rep)
